@@ -23,7 +23,7 @@ TITLE = 'strict vs non-strict'
 LEVEL = 'exploration'
 SHARDS = {'quick': 16, 'thorough': 16}
 FLOOR = {'quick': 800, 'thorough': 10000}
-REQUIRED_MONITORS = {'valid-pairs-compared': 1000, 'strict-rejections-located': 800, 'deferred-raised': 300, 'deferred-dead': 300, 'same-text-planted-twice': 100, 'empty-expression-sites': 100}
+REQUIRED_MONITORS = {'valid-pairs-compared': 1000, 'strict-rejections-located': 800, 'deferred-raised': 300, 'deferred-dead': 300, 'same-text-planted-twice': 100, 'empty-expression-sites': 100, 'line-ending-sites': 200}
 RULE = ('valid layer: a case = (program, binding table), strict and non-strict renderings compared; planted layer: a case = '
         '(program, planted slot, planting form in {alone, first pipe alternative, later pipe alternative, under not:, string: '
         'part, ${} part}, binding table); non-trivial: valid iff >=1 expression, planted always; distinct by (site kind, '
@@ -288,6 +288,7 @@ def unit_explains(root, table, shadow, got, groups, offsets, reported):
 def run(ctx):
     monitors.install(ctx, tokalg=False)
     layer_empty(ctx)
+    layer_line_endings(ctx)
     rng = ctx.rng
     n = 100 if ctx.quick else 1800
     maxdepth = 1 if ctx.quick else 2
@@ -447,6 +448,40 @@ def layer_empty(ctx):
         if got != want:
             ctx.violation('empty-expression-' + ('raised-iff-reached-violated' if got[0] != want[0] else 'deferred-error-differs-from-strict-error'),
                           'template %r (%s): strict error %r; non-strict rendering gave %r, expected %r' % (src, wname, strict, got, want), replay)
+
+
+def layer_line_endings(ctx):
+    """CRLF / CR / LF sources (HTML mode normalises them, XML mode keeps them): the strict error and the deferred
+    error name the same token, offset, line and column, and both are aligned with the text they refer to."""
+    from chameleon import PageTemplate
+    from chameleon.exc import ExpressionError
+    sites = ['<b tal:content="%s">x</b>', '<b>${%s}</b>', '<b title="t ${%s}">x</b>', '<b tal:define="a 1; b %s">x</b>',
+             '<b tal:attributes="a 1; b %s">x</b>']
+    work = [(nl, xml, site, bad, lines) for nl in ('\r\n', '\r', '\n', '\n\r\n') for xml in (False, True) for site in sites
+            for bad in BADS[:3] for lines in (1, 3)]
+    for idx, (nl, xml, site, bad, lines) in enumerate(work):
+        if idx % ctx.nshards != ctx.shard:
+            continue
+        src = ('<?xml version="1.0"?>' + nl if xml else '') + '<div>' + ('line' + nl) * lines + '  ' + site % bad + nl + '</div>' + nl
+        replay = {'kind': 'planted', 'src': src, 'text': bad}
+        ctx.mon('line-ending-sites')
+        ctx.case(key=('line-endings', repr(nl), xml, site[:12], bad, lines), nontrivial=True)
+        got = []
+        for strict in (True, False):
+            try:
+                t = PageTemplate(src, strict=strict)
+                t()
+                got.append(('no-error', None))
+            except ExpressionError as e:
+                problem = monitors.check_template_error(e)
+                got.append(((str(e.token), e.offset, tuple(e.location)), problem))
+            except Exception as e:
+                got.append(('other %s: %s' % (type(e).__name__, str(e).split('\n')[0][:80]), None))
+        (a, pa), (b, pb) = got
+        if pa or pb:
+            ctx.violation('line-endings-error-misaligned', 'template %r: strict error %r (%s), deferred error %r (%s)' % (src, a, pa, b, pb), replay)
+        elif a != b or not isinstance(a, tuple):
+            ctx.violation('line-endings-strict-and-deferred-error-differ', 'template %r: strict error %r, deferred error %r' % (src, a, b), replay)
 
 
 def replay(data):
